@@ -1,0 +1,11 @@
+//go:build verif
+
+package socket
+
+// VerifSetReaderSize sets the size of the buffered reader of sockets created
+// afterwards and returns the previous value.
+func VerifSetReaderSize(n int) int {
+	old := readerSize
+	readerSize = n
+	return old
+}
